@@ -1815,7 +1815,7 @@ Proof.
   set (names := ci_names ci) in *. set (drops := ci_drop ci) in *. set (syn := ci_syn ci) in *.
   set (ic := ign_char (i_ignchar i)) in *. set (mdt := i_mdt i) in *.
   cbn [forallb] in Hg.
-  pop Hg G1. pop Hg G5. pop Hg G7. pop Hg G11. pop Hg G12. pop Hg G13. pop Hg G14. pop Hg G15. pop Hg G16. clear Hg.
+  pop Hg G1. pop Hg G5. pop Hg G7. pop Hg G11. pop Hg G12. pop Hg G13. pop Hg G15. pop Hg G16. clear Hg.
   destruct (null_string (i_null i)) as [ns|e] eqn:Ens; cbn [bind]; [|reflexivity].
   pose proof (null_string_ok _ _ Ens) as Hnull.
   change (kept_names names drops) with (kept_of drops names).
@@ -1868,11 +1868,11 @@ Proof.
                              (map (spec_shape n) rows'))
                        (fun rws => postprocess (id_label names) (has_date names) ns mdt (columns_of names drops rws)) with
             | Ok t => bind (mapM (fun r => spec_convert_row ns mdt names drops (spec_shape n r)) rows')
-                           (fun crows => postprocess (id_label (kept_of drops names)) (has_date (kept_of drops names)) ns mdt
+                           (fun crows => postprocess (id_label (kept_of drops names)) (has_date names) ns mdt
                                            (columns_of (kept_of drops names) (map (fun _ => false) (kept_of drops names)) crows))
                       = Ok (kept_of drops t)
             | Err e => bind (mapM (fun r => spec_convert_row ns mdt names drops (spec_shape n r)) rows')
-                           (fun crows => postprocess (id_label (kept_of drops names)) (has_date (kept_of drops names)) ns mdt
+                           (fun crows => postprocess (id_label (kept_of drops names)) (has_date names) ns mdt
                                            (columns_of (kept_of drops names) (map (fun _ => false) (kept_of drops names)) crows))
                        = Err e
             end) as Hconv.
@@ -1900,9 +1900,7 @@ Proof.
     rewrite <- (kept_columns names drops mrows Hdl (fun r Hr => proj2 (Hrc2 r Hr))).
     set (cols := columns_of names drops mrows).
     destruct (columns_drops names drops mrows Hdl) as [Hcd Hcn].
-    rewrite (has_date_kept names drops) by (unfold g_no_date in G14; apply negb_true_iff in G14; exact G14).
-    assert (has_date names = false) as -> by (unfold g_no_date in G14; apply negb_true_iff in G14; exact G14).
-    pose proof (postprocess_agree (id_label names) (id_label (kept_of drops names)) false ns mdt cols) as Hpp.
+    pose proof (postprocess_agree (id_label names) (id_label (kept_of drops names)) (has_date names) ns mdt cols) as Hpp.
     fold cols in Hcd. rewrite Hcd in Hpp. apply Hpp.
     - intros c Hc Hd. apply (id_label_kept names drops (col_name c) Hdl G15 G13). rewrite <- Hd. apply (columns_pairs _ _ _ _ Hc).
     - intros c Hc Hd. unfold id_check. destruct (is_label (id_label names) (col_name c)) eqn:El; [|reflexivity].
